@@ -545,7 +545,12 @@ def chk_addcolumn(inp):
         v = col[i] if i < k else missing
         if i < n:
             r = tuple(table[1 + i])
-            want.append(tuple(ins(r, index, v)) if len(r) == m else ANY)
+            if len(r) == m:
+                want.append(tuple(ins(r, index, v)))
+            elif len(r) > m and index is None:
+                want.append(r[:m] + (v,) + r[m:])       # the value sits under the new field; surplus cells keep their order
+            else:
+                want.append(ANY)
         else:
             want.append(tuple(ins((missing,) * m, index, v)))
     kw = {}
